@@ -504,6 +504,16 @@ def facts():
              "(andb (orb (N.eqb (q_type q) T_A) (N.eqb (q_type q) T_AAAA)) (bs_eqb (q_name q) (Some hostname)))",
              hostname_question)
 
+    def hostname_announce():
+        b = func_body(hostname, r"void\s+HostnamePrivate::onRegistrationTimeout\s*\(")
+        cond = nth_cond(b, "if", 0)
+        tail = b[b.index(cond) + len(cond):]
+        if not re.match(r"\s*\)\s*\{?\s*emit\s+q->hostnameChanged\s*\(\s*hostname\s*\)\s*;", tail):
+            raise ValueError("the first if of onRegistrationTimeout no longer guards the notification")
+        return Dec(cond, {"hostname": ("hostname", "bstr"), "hostnamePrev": ("prev", "bstr")}).parse()
+
+    decision("hostname_announce", "(hostname prev : bstr)", "(negb (bs_eqb hostname prev))", hostname_announce)
+
     def resolver_filter():
         b = func_body(resolver, r"void\s+ResolverPrivate::onMessageReceived\s*\(")
         loop = b[b.index("for"):]
@@ -513,6 +523,17 @@ def facts():
     decision("resolver_filter", "(r : record) (name : bstr)",
              "(andb (bs_eqb (r_name r) name) (orb (N.eqb (r_type r) T_A) (N.eqb (r_type r) T_AAAA)))",
              resolver_filter)
+
+    def resolver_report():
+        b = func_body(resolver, r"void\s+ResolverPrivate::onMessageReceived\s*\(")
+        loop = b[b.index("for"):]
+        cond = nth_cond(loop, "if", 1)
+        tail = loop[loop.index(cond) + len(cond):]
+        if not re.match(r"\s*\)\s*\{?\s*emit\s+q->resolved\s*\(", tail):
+            raise ValueError("the second if of the record loop no longer guards resolved()")
+        return Dec(cond, merge(rec_vocab("record", "r"), {"addresses.contains(record.address())": ("known", "bool")})).parse()
+
+    decision("resolver_report", "(r : record) (known : bool)", "(andb (negb (N.eqb (r_ttl r) 0%N)) (negb known))", resolver_report)
 
     provider = read("src/src/provider.cpp")
 
